@@ -55,7 +55,12 @@ type Defpackage struct {
 // Call the function with the arguments provided.
 func (f *Defpackage) Call(s *slip.Scope, args slip.List, depth int) (result slip.Object) {
 	slip.CheckArgCount(s, depth, f, args, 1, 7)
-	a0 := slip.EvalArg(s, args, 0, depth)
+	// A bare symbol is the name itself, as in Common Lisp and as the load
+	// form of a package writes it. Anything else is evaluated.
+	a0 := args[0]
+	if _, ok := a0.(slip.Symbol); !ok {
+		a0 = slip.EvalArg(s, args, 0, depth)
+	}
 	name := slip.MustBeString(a0, "name")
 	if slip.FindPackage(name) != nil {
 		slip.ErrorPanic(s, depth, "Package %s already exists.", name)
